@@ -87,10 +87,37 @@ fn decode(attr: &Arc<Vec<packet::Attribute>>) -> (u32, u32, u32) {
                 tok = v & 0xffff;
             } else if v >> 16 == 2 {
                 src = v & 0xffff;
+            } else if v == 0x0003_0001 {
+                tok += 100; // tagged by export policy 1 (the token community precedes it)
             }
         }
     }
     (src, tok, llgr)
+}
+
+fn tag_policy() -> Arc<table::PolicyAssignment> {
+    let st = Arc::new(table::Statement {
+        name: Arc::from("tag"),
+        conditions: vec![],
+        disposition: Some(table::Disposition::Accept),
+        actions: table::Actions {
+            community: Some(table::CommunityAction {
+                action_type: table::CommunityActionType::Add,
+                communities: vec![0x0003_0001],
+            }),
+            ..Default::default()
+        },
+    });
+    let p = Arc::new(table::Policy {
+        name: Arc::from("tagp"),
+        statements: vec![st],
+    });
+    Arc::new(table::PolicyAssignment {
+        name: Arc::from("taga"),
+        disposition: table::Disposition::Accept,
+        policies: vec![p],
+        needs_rpki: false,
+    })
 }
 
 type Route = (Arc<Vec<packet::Attribute>>, Option<bgp::Nexthop>);
@@ -156,6 +183,7 @@ struct World {
     ctx: PeerExportContext,
     cluster_id: Option<Ipv4Addr>,
     policy: Option<Arc<table::PolicyAssignment>>,
+    policy0: Option<Arc<table::PolicyAssignment>>,
     glue_limited: bool,
     registered: bool,
     chan: VecDeque<table::NlriChange>,
@@ -327,7 +355,8 @@ fn run_case(case: &Val) -> Val {
         remote_addr: nbr_addr,
         ctx,
         cluster_id,
-        policy,
+        policy: policy.clone(),
+        policy0: policy,
         glue_limited,
         registered: false,
         chan: VecDeque::new(),
@@ -406,13 +435,38 @@ fn run_case(case: &Val) -> Val {
                     let mut em = std::mem::take(&mut w.export_map);
                     let mut p = std::mem::replace(&mut w.pending, crate::peer_tx::PendingTx::new(aptx));
                     for c in &changes {
-                        w.process(c, &mut em, &mut p);
+                        // do_route_refresh: once per path, named as replaced, for add-path
+                        let replaced: Vec<Option<u32>> = if w.max > 1 {
+                            c.current_paths.iter().map(|p| Some(p.local_path_id)).collect()
+                        } else {
+                            vec![None]
+                        };
+                        for r in replaced {
+                            let mut c = c.clone();
+                            c.replaced_path_id = r;
+                            w.process(&c, &mut em, &mut p);
+                        }
                     }
                     p.schedule_eor();
                     w.export_map = em;
                     w.pending = p;
                 }
                 out.push(Val::L(vec![Val::n(5), Val::b(w.pending.is_empty())]));
+            }
+            9 => {
+                // the neighbour's export policy assignment is replaced: 0 = the configured
+                // one, 1 = accept everything and add community 3:1
+                w.policy = if op.at(1).u32() == 0 { w.policy0.clone() } else { Some(tag_policy()) };
+                out.push(Val::L(vec![Val::n(8)]));
+            }
+            8 => {
+                // session end: unregister_peer drops the channel, the session state goes with it
+                w.registered = false;
+                w.chan.clear();
+                w.export_map = ExportMap::default();
+                w.pending = crate::peer_tx::PendingTx::new(aptx);
+                w.mirror.clear();
+                out.push(Val::L(vec![Val::n(7)]));
             }
             _ => panic!("verif: bad op"),
         }
